@@ -266,7 +266,7 @@ pub fn run(tier: Tier) -> i32 {
     #[allow(non_snake_case)]
     let INSTANTS: &[i64] = &instants;
     let mut run = Run::new("C06", tier, "exploration");
-    run.rule = "(i) every RFC 3339 offset -12:00..+14:00 in 15-minute steps x 12 instants x 0..9 fraction digits (+ Z / +00:00 / -00:00) through three constructors: rejected or exact instant; (i'') the leap second 23:59:60 UTC of 2015-06-30 and 2016-12-31 spelled at every half-hour offset, and as a value in every zone through both codecs; (i') 27 malformed texts and 14 zone names that name no zone: error or preserved instant, never a panic; (ii) every in-model zone x every offset transition 1980-2060 x {t-3601,t-1,t,t+1,t+3599} + a lattice, through parse_from_rfc3339_with_timezone (UTC and local spelling), the chrono conversions, timezone::make_date_time_with_tz (city and full name, instant given at three offsets), make_date_time, the C API constructor from UTC date + time + zone with its date/time/zone getters, and (iii) both codecs with 0/3/6/9 fraction digits; (v) the 18 zones of the scalar alphabet beyond that range: every offset transition 1900-2100, a yearly lattice to 2200, years 1 / 1000 / 9999, instants just before 1970 (whole-minute offsets only); non-trivial = distinct (zone, instant, digits) / distinct text".into();
+    run.rule = "(i) every RFC 3339 offset -12:00..+14:00 in 15-minute steps x 12 instants x 0..9 fraction digits (+ Z / +00:00 / -00:00) through three constructors: rejected or exact instant; (i'') the leap second 23:59:60 UTC of 2015-06-30 and 2016-12-31 spelled at every half-hour offset, and as a value in every zone through both codecs; (i-z) ~1500 zoned texts (Zinc, Hayson, text + zone) whose wall clock lies in or next to the skipped / repeated hour of 18 zones, with the offset before, after, and offsets the zone never has: never a panic; when the offset is the zone's offset at that instant, the instant of the RFC 3339 part (or an error); (i') 27 malformed texts and 14 zone names that name no zone: error or preserved instant, never a panic; (ii) every in-model zone x every offset transition 1980-2060 x {t-3601,t-1,t,t+1,t+3599} + a lattice, through parse_from_rfc3339_with_timezone (UTC and local spelling), the chrono conversions, timezone::make_date_time_with_tz (city and full name, instant given at three offsets), make_date_time, the C API constructor from UTC date + time + zone with its date/time/zone getters, and (iii) both codecs with 0/3/6/9 fraction digits; (v) the 18 zones of the scalar alphabet beyond that range: every offset transition 1900-2100, a yearly lattice to 2200, years 1 / 1000 / 9999, instants just before 1970 (whole-minute offsets only); non-trivial = distinct (zone, instant, digits) / distinct text".into();
     run.assume("chrono_tz offsets are the reference for each zone's local offset (trusted base)");
     run.assume("in-model zone = city name (text after the first '/') designates no zone with different rules under exact or region-prefixed resolution");
     crate::engine::quiet_panics();
@@ -359,6 +359,49 @@ pub fn run(tier: Tier) -> i32 {
                     run.stats.fail("with-timezone:instant:bad-zone", json!({"bad_zone": z}), format!("zone name {z:?} accepted and the instant moved to {}", got.secs));
                 }
                 run.stats.outcome("accepted-outside-the-model");
+            }
+        }
+    }
+
+    // (i-z) zoned texts whose wall clock is in the skipped / repeated hour, with agreeing and
+    // disagreeing offsets: rejected, or the instant of the RFC 3339 part, never a panic
+    for (text, city, secs) in transition_texts() {
+        run.stats.evals += 1;
+        run.stats.count("transition-texts");
+        let z = format!("{text} {city}");
+        let j = format!("{{\"_kind\":\"dateTime\",\"val\":\"{text}\",\"tz\":\"{city}\"}}");
+        let results: Vec<(&str, Result<Result<DT, String>, String>)> = vec![
+            ("zinc", guarded(|| match libhaystack::encoding::zinc::decode::from_str(&z) {
+                Ok(Value::DateTime(d)) => Ok(dt_from_lib(&d)),
+                Ok(other) => Err(format!("{other:?}")),
+                Err(e) => Err(e.to_string()),
+            })),
+            ("hayson", guarded(|| match serde_json::from_str::<Value>(&j) {
+                Ok(Value::DateTime(d)) => Ok(dt_from_lib(&d)),
+                Ok(other) => Err(format!("{other:?}")),
+                Err(e) => Err(e.to_string()),
+            })),
+            ("with-timezone", guarded(|| DateTime::parse_from_rfc3339_with_timezone(&text, &city).map(|d| dt_from_lib(&d)))),
+        ];
+        for (name, r) in results {
+            match r {
+                Err(p) => run.stats.fail(&format!("zoned-text-panic:{name}"), json!({"zoned_text": text, "city": city}), format!("{z:?}: {p}")),
+                Ok(Err(_)) => run.stats.outcome("rejected"),
+                Ok(Ok(got)) => {
+                    // a text whose offset is not the zone's offset at that instant denotes no
+                    // value (no writer can produce it): only totality is demanded of it
+                    let full = crate::model::universe::ZONES.iter().find(|z| city_of(z) == city).copied().unwrap_or("UTC");
+                    let agrees = rfc3339_instant(&text).map_or(false, |x| offset_at(&full.parse::<Tz>().unwrap(), secs) == x.2);
+                    if !agrees {
+                        run.stats.outcome("accepted-inconsistent-offset");
+                        if got.secs != secs {
+                            run.stats.count("inconsistent-offset-texts-read-at-another-instant");
+                        }
+                    } else if got.secs != secs {
+                        run.stats.fail(&format!("zoned-text-instant:{name}"), json!({"zoned_text": text, "city": city}), format!("{z:?} denotes {secs}s, library gives {}s (offset {})", got.secs, got.offset));
+                    }
+                    run.stats.outcome("ok");
+                }
             }
         }
     }
@@ -492,6 +535,30 @@ pub fn run(tier: Tier) -> i32 {
         run.absorb(l);
         run.require(run.counter("wide-range-instants") > 1000, "wide range pass too small");
     }
+    // (vi) history independence: decoding a timestamp after a timestamp in another zone or DST
+    // state (all ordered pairs of 18 zones x 6 instants, Zinc, Hayson, text + zone constructor)
+    {
+        let mut pool: Vec<(String, i64)> = vec![];
+        for z in crate::model::universe::ZONES {
+            for t in [1_610_000_000i64, 1_625_097_600, 1_636_264_800 - 1, 1_636_264_800, 1_615_705_200 - 1, 951_782_400] {
+                pool.push((z.to_string(), t));
+            }
+        }
+        let op = |x: &(String, i64)| -> String {
+            let v = V::dt(x.1, 123_000_000, &x.0);
+            let z = crate::model::zinc_ref::write_canonical(&v);
+            let a = libhaystack::encoding::zinc::decode::from_str(&z).map(|b| format!("{:?}", crate::model::v::from_lib(&b))).map_err(|e| e.to_string());
+            let (j, _) = crate::model::hayson_ref::write(&v, &mut crate::engine::choice::Chooser::replaying(vec![]));
+            let b = serde_json::from_str::<Value>(&j).map(|b| format!("{:?}", crate::model::v::from_lib(&b))).map_err(|e| e.to_string());
+            let c = DateTime::parse_from_rfc3339_with_timezone(&rfc3339_text(x.1, 0, 0, 0, "Z"), &city_of(&x.0)).map(|d| format!("{:?}", dt_from_lib(&d)));
+            let lv = crate::model::v::to_lib(&v);
+            let d = libhaystack::encoding::zinc::encode::to_zinc_string(&lv).map_err(|e| e.to_string());
+            let e = serde_json::to_string(&lv).map_err(|e| e.to_string());
+            format!("{a:?}|{b:?}|{c:?}|{d:?}|{e:?}")
+        };
+        let l = super::common::history_pairs("timestamps", &pool, &op, &|x: &(String, i64)| json!({"zone": x.0, "secs": x.1}));
+        run.absorb(l);
+    }
     run.require(run.counter("rfc3339-texts") > 10_000, "too few RFC 3339 texts");
     run.require(all.len() >= 500, "fewer than 500 zones in the model");
     run.require(run.counter("zones-with-repeated-hour") > 10 && run.counter("zones-with-skipped-hour") > 10, "no DST transitions explored");
@@ -504,7 +571,33 @@ pub fn run(tier: Tier) -> i32 {
     run.finish(&replay)
 }
 
+/// the offset of a zoned text is the zone's offset at the instant the text denotes
+fn consistent(text: &str, city: &str) -> bool {
+    let full = crate::model::universe::ZONES.iter().find(|z| city_of(z) == city).copied().unwrap_or("UTC");
+    rfc3339_instant(text).map_or(false, |x| offset_at(&full.parse::<Tz>().unwrap(), x.0) == x.2)
+}
+
 pub fn replay(case: &J) -> Verdict {
+    if case["history_pair"].is_string() {
+        // replayed by the whole check (the pair is only meaningful within its pool)
+        return Err(("history-changes-output:timestamps".into(), "re-run ./check C06 quick".into()));
+    }
+    if let (Some(text), Some(city)) = (case["zoned_text"].as_str(), case["city"].as_str()) {
+        let want = rfc3339_instant(text).map(|x| x.0);
+        let z = format!("{text} {city}");
+        return match guarded(|| libhaystack::encoding::zinc::decode::from_str(&z).ok().and_then(|v| match v { Value::DateTime(d) => Some(dt_from_lib(&d).secs), _ => None })) {
+            Err(p) => Err(("zoned-text-panic:zinc".into(), p)),
+            Ok(Some(s)) if Some(s) != want && consistent(text, city) => Err(("zoned-text-instant:zinc".into(), format!("{s} vs {want:?}"))),
+            _ => {
+                let j = format!("{{\"_kind\":\"dateTime\",\"val\":\"{text}\",\"tz\":\"{city}\"}}");
+                match guarded(|| serde_json::from_str::<Value>(&j).ok().and_then(|v| match v { Value::DateTime(d) => Some(dt_from_lib(&d).secs), _ => None })) {
+                    Err(p) => Err(("zoned-text-panic:hayson".into(), p)),
+                    Ok(Some(s)) if Some(s) != want && consistent(text, city) => Err(("zoned-text-instant:hayson".into(), format!("{s} vs {want:?}"))),
+                    _ => Ok(()),
+                }
+            }
+        };
+    }
     if let Some(t) = case["malformed"].as_str() {
         return match guarded(|| {
             let _ = DateTime::parse_from_rfc3339(t);
